@@ -18,6 +18,9 @@ type c19Tables struct {
 	MapRanges map[string]string `json:"map_ranges"` // function key → commutativity / ordering reason
 	Ambient   map[string]string `json:"ambient"`    // "function key callee" → reason (telemetry only …)
 	Globals   map[string]string `json:"globals"`    // "function key global" → reason
+	// AbortOnError: frozen map ranges whose commutativity argument needs "a failure aborts the
+	// block": the error of every call of the function must travel up to an abort.
+	AbortOnError map[string]string `json:"abort_on_error"`
 }
 
 func checkC19(P *core.Program, R *core.Report) {
@@ -138,8 +141,55 @@ func checkC19(P *core.Program, R *core.Report) {
 			R.Add("C19-table", k, "frozen map range", "-", P.Fn(k) != nil, "frozen entry names a function that no longer exists or no longer ranges a map (stale entries are harmless only if the function exists)")
 		}
 	}
+	for k, why := range T.AbortOnError {
+		f := P.Fn(k)
+		if f == nil {
+			R.Add("C19-map-range-abort", k, "function", "-", false, "unresolved anchor")
+			continue
+		}
+		checkErrorAbortsUpward(P, R, "C19-map-range-abort", f, subjects, why, 4, map[*ssa.Function]bool{})
+	}
+	checkInPlaceFresh(P, R, subjects)
 	checkKeeperStructs(P, R)
 	checkStoreKeyWiring(P, R)
+}
+
+// checkErrorAbortsUpward: at every consensus call site of f, a non-nil error of f cannot be
+// followed by a success exit of the caller (it is returned, wrapped, or panics); callers that
+// hand the error on are checked in turn, up to depth levels or a caller without callers
+// inside the module (a block root, whose error the SDK turns into an abort).
+func checkErrorAbortsUpward(P *core.Program, R *core.Report, rule string, f *ssa.Function, subjects map[*ssa.Function]bool, why string, depth int, seen map[*ssa.Function]bool) {
+	if seen[f] || depth == 0 {
+		return
+	}
+	seen[f] = true
+	for _, e := range P.CG().In[f] {
+		caller := e.Caller
+		if !subjects[caller] || core.IsGeneratedOrAux(P.File(caller.Pos())) {
+			continue
+		}
+		c, ok := e.Site.(ssa.CallInstruction)
+		if !ok {
+			continue
+		}
+		ff := P.Facts(caller)
+		ev, discarded := core.ErrValueOf(c)
+		bad := ""
+		switch {
+		case ev == nil && !discarded:
+			continue
+		case discarded:
+			bad = "the error is discarded"
+		default:
+			if r := ff.ErrNonNilReaches(c, ev, nil, true); r != nil {
+				bad = "with the error non-nil a path reaches a success exit at " + P.Pos(P.InstrPos(r.Instr))
+			}
+		}
+		R.Add(rule, P.Key(caller), "error of "+P.Key(f), P.Pos(P.InstrPos(c)), bad == "", why+". "+bad)
+		if bad == "" && core.ErrResultIndex(caller.Signature) >= 0 {
+			checkErrorAbortsUpward(P, R, rule, caller, subjects, why, depth-1, seen)
+		}
+	}
 }
 
 func ambientCallee(ck string) bool {
@@ -547,4 +597,207 @@ func globalRoot(addr ssa.Value) (*ssa.Global, bool) {
 		}
 	}
 	return nil, false
+}
+
+// In-place arithmetic (C19-inplace-fresh).  cosmossdk.io/math values wrap a *big.Int, so a copy
+// of a LegacyDec/Int shares its digits with the original.  The in-place methods (…Mut, Set,
+// SetInt64) are therefore only safe on a value this very computation created: applied to a
+// package-level constant (or to something a helper may hand out that IS one — computeLn
+// returns the shared ln2 for base 2) they rewrite process memory that later blocks, and a
+// restarted node, read differently.  Every in-place call in consensus code has a receiver
+// that is fresh: built by a constructor / non-mutating operation, a clone, an in-place result
+// on a fresh value, or a parameter for which every caller passes a fresh value.
+func isInPlaceMathMethod(c *ssa.CallCommon) bool {
+	sc := c.StaticCallee()
+	if sc == nil || sc.Signature.Recv() == nil || !core.IsMathType(sc.Signature.Recv().Type()) {
+		return false
+	}
+	n := sc.Name()
+	return strings.HasSuffix(n, "Mut") || n == "Set" || n == "SetInt64" || n == "SetUint64"
+}
+
+func freshMath(P *core.Program, ff *core.FuncFacts, v ssa.Value, depth int, seen map[ssa.Value]bool) (bool, string) {
+	if depth <= 0 {
+		return false, "depth bound"
+	}
+	v = ff.Fwd(v)
+	if seen[v] {
+		return true, "" // a loop-carried value: decided by its other edges
+	}
+	seen[v] = true
+	switch x := v.(type) {
+	case *ssa.Const:
+		return true, ""
+	case *ssa.Alloc:
+		// address of a local (pointer-receiver call on a local variable): every value stored
+		// into it must be fresh
+		if x.Referrers() == nil {
+			return true, ""
+		}
+		for _, r := range *x.Referrers() {
+			if st, ok := r.(*ssa.Store); ok && st.Addr == ssa.Value(x) {
+				if ok2, why := freshMath(P, ff, st.Val, depth, seen); !ok2 {
+					return false, why
+				}
+			}
+		}
+		return true, ""
+	case *ssa.Phi:
+		for _, e := range x.Edges {
+			if ok, why := freshMath(P, ff, e, depth, seen); !ok {
+				return false, why
+			}
+		}
+		return true, ""
+	case *ssa.Extract:
+		if c, ok := x.Tuple.(*ssa.Call); ok {
+			return freshCallResult(P, ff, c, x.Index, depth, seen)
+		}
+		return false, "tuple of unknown origin"
+	case *ssa.Call:
+		return freshCallResult(P, ff, x, 0, depth, seen)
+	case *ssa.Parameter:
+		fn := x.Parent()
+		idx := -1
+		for i, p := range fn.Params {
+			if p == x {
+				idx = i
+			}
+		}
+		callers := P.CG().In[fn]
+		if idx < 0 || len(callers) == 0 {
+			return false, "parameter " + x.Name() + " of a function without known callers"
+		}
+		for _, e := range callers {
+			c, ok := e.Site.(ssa.CallInstruction)
+			if !ok || c.Common().IsInvoke() || idx >= len(c.Common().Args) {
+				return false, "parameter " + x.Name() + " bound through a dynamic call"
+			}
+			cf := P.Facts(e.Caller)
+			if ok2, why := freshMath(P, cf, c.Common().Args[idx], depth-1, map[ssa.Value]bool{}); !ok2 {
+				return false, "caller " + P.Key(e.Caller) + " passes a value that is not fresh (" + why + ")"
+			}
+		}
+		return true, ""
+	case *ssa.UnOp:
+		if x.Op == token.MUL {
+			if g, ok := x.X.(*ssa.Global); ok {
+				return false, "package-level variable " + g.Name()
+			}
+			if a, ok := x.X.(*ssa.Alloc); ok {
+				return freshMath(P, ff, a, depth, seen)
+			}
+			return false, "value loaded from " + x.X.Name() + " (a field or element of a shared record)"
+		}
+	}
+	return false, "value of unknown origin " + v.Name()
+}
+
+func freshCallResult(P *core.Program, ff *core.FuncFacts, c *ssa.Call, idx int, depth int, seen map[ssa.Value]bool) (bool, string) {
+	cc := c.Common()
+	sc := cc.StaticCallee()
+	if sc == nil {
+		return false, "result of a dynamic call"
+	}
+	if isInPlaceMathMethod(cc) {
+		return freshMath(P, ff, cc.Args[0], depth, seen) // returns its receiver
+	}
+	if !core.InModule(sc) {
+		if p := sc.Pkg; p != nil && p.Pkg.Path() == "cosmossdk.io/math" {
+			return true, "" // constructors and non-mutating operations return a new value
+		}
+		if sc.Signature.Recv() != nil && core.IsMathType(sc.Signature.Recv().Type()) {
+			return true, ""
+		}
+		return false, "result of " + sc.String()
+	}
+	// a helper of this module: every value it can return at this position must be fresh, with
+	// its parameters judged at this call site
+	if len(sc.Blocks) == 0 {
+		return false, "result of " + P.Key(sc) + " (no body)"
+	}
+	cf := P.Facts(sc)
+	for _, ex := range cf.Exits() {
+		ret, ok := ex.Instr.(*ssa.Return)
+		if !ok || ex.Kind == core.ExitError || idx >= len(ret.Results) {
+			continue
+		}
+		rv := cf.Fwd(ret.Results[idx])
+		ok2, why := freshInCallee(P, cf, rv, sc, ff, cc, depth-1, map[ssa.Value]bool{})
+		if !ok2 {
+			return false, P.Key(sc) + " can return " + why
+		}
+	}
+	return true, ""
+}
+
+// freshInCallee judges a value inside callee sc; parameters are judged by the argument
+// bound at the call cc in the caller (facts ff).
+func freshInCallee(P *core.Program, cf *core.FuncFacts, v ssa.Value, sc *ssa.Function, ff *core.FuncFacts, cc *ssa.CallCommon, depth int, seen map[ssa.Value]bool) (bool, string) {
+	if depth <= 0 {
+		return false, "a value beyond the depth bound"
+	}
+	v = cf.Fwd(v)
+	if seen[v] {
+		return true, ""
+	}
+	seen[v] = true
+	switch x := v.(type) {
+	case *ssa.Parameter:
+		for i, p := range sc.Params {
+			if p == x && i < len(cc.Args) {
+				return freshMath(P, ff, cc.Args[i], depth, map[ssa.Value]bool{})
+			}
+		}
+		return false, "an unbound parameter"
+	case *ssa.Phi:
+		for _, e := range x.Edges {
+			if ok, why := freshInCallee(P, cf, e, sc, ff, cc, depth, seen); !ok {
+				return false, why
+			}
+		}
+		return true, ""
+	case *ssa.Call:
+		if isInPlaceMathMethod(x.Common()) {
+			return freshInCallee(P, cf, x.Common().Args[0], sc, ff, cc, depth, seen)
+		}
+		return freshCallResult(P, cf, x, 0, depth, map[ssa.Value]bool{})
+	case *ssa.Extract:
+		if c, ok := x.Tuple.(*ssa.Call); ok {
+			return freshCallResult(P, cf, c, x.Index, depth, map[ssa.Value]bool{})
+		}
+	case *ssa.UnOp:
+		if x.Op == token.MUL {
+			if g, ok := x.X.(*ssa.Global); ok {
+				return false, "the package-level variable " + g.Name()
+			}
+		}
+	}
+	ok, why := freshMath(P, cf, v, depth, seen)
+	return ok, why
+}
+
+func checkInPlaceFresh(P *core.Program, R *core.Report, subjects map[*ssa.Function]bool) {
+	n := 0
+	var fns []*ssa.Function
+	for fn := range subjects {
+		fns = append(fns, fn)
+	}
+	sort.Slice(fns, func(i, j int) bool { return P.Key(fns[i]) < P.Key(fns[j]) })
+	for _, fn := range fns {
+		if core.IsGeneratedOrAux(P.File(fn.Pos())) || !core.InModule(fn) {
+			continue
+		}
+		ff := P.Facts(fn)
+		for _, c := range core.Calls(fn) {
+			if !isInPlaceMathMethod(c.Common()) {
+				continue
+			}
+			n++
+			ok, why := freshMath(P, ff, c.Common().Args[0], 4, map[ssa.Value]bool{})
+			R.Add("C19-inplace-fresh", P.Key(fn), "in-place "+c.Common().StaticCallee().Name(), P.Pos(P.InstrPos(c)), ok,
+				"an in-place math operation rewrites the digits every copy of the value shares: its receiver must have been created by this computation. "+why)
+		}
+	}
+	R.Analysed["inplace_math_calls"] = n
 }
